@@ -107,7 +107,7 @@ Theorem T10_3b_refused_iff :
 Proof. exact surviving_drop_iff. Qed.
 Print Assumptions T10_3b_refused_iff.
 
-(* T10.1c the application step BEFORE repairs a77dd14 / ffcbb2f (hunt items C10-0, C10-1) is refuted: a transaction
+(* T10.1c the application step BEFORE repairs 287b37c / 4047a08 (hunt items C10-0, C10-1) is refuted: a transaction
    accepted by the scheduler with two members is applied in part, once through the whitespace-only refusal and
    once through the ignore test re-run on the partly rewritten text; partial: when no member is refused at its turn
    the old step is the pure splice. *)
